@@ -109,6 +109,80 @@ CLAIMED = {
         "corpus = module texts of /repo/tests plus generated modules.",
         "Lean 4 proof (print/parse round trip by structural induction) + correspondence and reparse streams",
     ),
+    "C03": (
+        "DESIGN.md 5 (C03), 2.1 L2",
+        "Lean 4 theorems about the compositional mirror of UperWriter/UperReader (Uper/Impl.lean), for EVERY field list and value "
+        "list (no bound on the number of components): the bits of a SEQUENCE/SET are exactly [extension bit] ++ one presence bit per "
+        "OPTIONAL/DEFAULT root component in order ++ root encodings ++ (if an addition is present: X.691 normally-small count-1, "
+        "presence bitmap, open types); the extension bit is set iff the first addition is present; DEFAULT omitted iff equal to the "
+        "default; refusal_iff / refusal_converse: the encoder fails only with ExtensionFieldsInconsistent (first addition absent, later "
+        "present) or with a component's own error; the encoder never panics; on the reader side absent root components and additions "
+        "decode to absent/default without moving the cursor. Full strength after the NULL-counting and DEFAULT-addition fix: commits.",
+        "Trusted: Lean kernel, standard axioms; the compositional mirror is validated against the position-patching scope machine by "
+        "the `uper` streams: every SEQUENCE shape with <= 3 components x kinds x marker position x every presence pattern with the "
+        "expected bits computed independently in Python, plus generated values of nested/SET/version types.",
+        "Lean 4 proof (append-only frame lemma over the component list) + exhaustive shape correspondence stream",
+    ),
+    "C04": (
+        "DESIGN.md 5 (C04)",
+        "Lean 4 theorems: every L1 PER reader and the whole UPER reader mirror return Ok or Err on EVERY input (uper_total: "
+        "dec t inp pos is never panic, for every type, input and position), never move the cursor backwards or beyond the declared "
+        "length (no_overread), octet/bit/character strings allocate at most what the input holds, a SEQUENCE OF of elements that "
+        "consume at least one bit has at most |input| elements (work_bound_partial); the DER readers never panic (from C20). "
+        "The full work bound is false for zero-width elements under a 63-bit length field (not_workBounded, known finding). "
+        "Real runtime facts (allocator, stack) are observed by the hostile stream only. The protobuf reader part is added when its "
+        "model lands (until then covered by no claim).",
+        "Trusted: Lean kernel, standard axioms; mirrors validated on hostile inputs (mutations of valid encodings, random and crafted "
+        "bits) with the real readers under catch_unwind, process aborts attributed per request; a declared bit length above 8*len is "
+        "outside (debug assertion in Bits::from).",
+        "Lean 4 proof (mutual structural induction over Ty/Fields, suffix property of L1 readers) + hostile correspondence stream",
+    ),
+    "C06": (
+        "DESIGN.md 5 (C06)",
+        "Lean 4 theorems about the UPER writer mirror: for every non-extensible constraint kind (INTEGER range incl. single-value, SIZE "
+        "of all string kinds/lists/octet/bit strings, restricted alphabets, ENUMERATED/CHOICE index) a violating value gives Err of "
+        "the matching kind; a violation anywhere in a value (inductive closure Violates over components, elements, alternatives at any "
+        "depth) makes the whole encoding fail (violation_anywhere_is_an_error, ok_implies_no_violation); the encoder never panics; "
+        "out-of-root values of extensible constraints are written in the extension form (first bit 1, unconstrained form). The "
+        "'never a different value' half is the C01 round trip.",
+        "Trusted: Lean kernel, standard axioms; mirror validated by the violation stream (harness-generated values violating exactly "
+        "one non-extensible constraint: lb-1, ub+1, far outside, size lb-1/ub+1, one illegal character at first/middle/last position).",
+        "Lean 4 proof (case analysis per constraint kind + induction over the value tree) + violation correspondence stream",
+    ),
+    "C07": (
+        "DESIGN.md 5 (C07)",
+        "Lean 4 theorem parse_print_partial: for every abstract module of the supported subset (all type kinds, tags, sizes with "
+        "extensibility, named numbers, defaults, markers, imports, OIDs, unbounded nesting) parsing the printed token list gives the "
+        "module back up to the SIZE normal forms only; built from per-construct lemmas parseX (printX x ++ rest) = ok (x', rest) "
+        "composed by mutual structural recursion. The lossy behaviours of the parser ((0..MAX) widening, keyword-like references, "
+        "Module suffix) are explicit hypotheses, each shown necessary by a counterexample, and are listed known findings together "
+        "with marker and string-default quirks found by the stream.",
+        "Trusted: Lean kernel, standard axioms; token-level mirror of Model::try_from and the per-construct parsers validated by the "
+        "`parse` stream (grammar-based schemas printed to text, real tokenizer+parser+resolver, canonical dump compared with the "
+        "abstract schema; corpus of /repo/tests modules; mutated inputs). Layout independence is C13.",
+        "Lean 4 proof (parser/printer round trip by structural induction) + grammar-based correspondence stream",
+    ),
+    "C12": (
+        "DESIGN.md 5 (C12)",
+        "Lean 4 theorems about a mirror of ResolveScope/MultiModuleResolver: replacing integer/size/default literals by value "
+        "references (same module, imported by name or by OID) resolves to the same model (subst, subst_all), independent of the load "
+        "order when no import matches two loaded modules (load_order; the condition is shown necessary); unresolved names give "
+        "FailedToResolveReference and non-integer literals FailedToParseLiteral, never a substituted bound; import chasing has "
+        "enough fuel on acyclic imports and diverges on a cycle (known finding: stack overflow).",
+        "Trusted: Lean kernel, standard axioms; mirror validated by the `resolve` stream (all load orders of <= 3 modules, negatives).",
+        "Lean 4 proof (substitution lemma per construct, lookup agreement) + correspondence stream",
+    ),
+    "C19": (
+        "DESIGN.md 5 (C19)",
+        "Lean 4 theorem diag_erasure about a second mirror decD that threads the diagnostic log through exactly the control flow of "
+        "dec, pushing an entry at each of the 45 cfg(feature) sites incl. the two value-dependent warnings: for every type, input, "
+        "position and initial log the outcome (value, error kind, cursor) equals that of dec, and the log only grows. The tie to the "
+        "code is a two-configuration correspondence: the same requests (valid and hostile) are answered by the harness built without "
+        "and with descriptive-deserialize-errors and by the driver; any difference in outcome kind, value or consumed bits is a violation.",
+        "Trusted: Lean kernel, standard axioms; that the feature only adds log pushes is checked by the two builds, not derived; "
+        "log contents are not compared with the real ScopeDescription entries.",
+        "Lean 4 proof (erasure by mutual structural induction) + two-build correspondence stream",
+    ),
 }
 
 NOT_YET = "model and first theorem not built yet in this revision (work in progress; see DESIGN.md 8 for the order of work)"
